@@ -60,9 +60,15 @@ GroupSet(s) ==
           conds : {<<Entry(0, <<c>>)>> : c \in AllOpConds}
                   \cup {<<Entry(0, <<c, d>>)>> : c \in AllOpConds, d \in [arg : {1}, op : {"Equal"}, val : {1}]},
           act : {"errno", "trap"}]
-    [] s = "pairs" ->      \* C03: AND of two conditions on the SAME argument, every pair of operations and operands
+    [] s = "mergeops" ->   \* C02 / C03: two single-condition entries of one syscall on the same argument (alternatives), every pair of operations
+         [names : {<<>>, <<1>>},
+          conds : {<<Entry(0, <<c>>), Entry(0, <<d>>)>> : c \in [arg : {0}, op : OpSet, val : {1, 2}], d \in [arg : {0}, op : OpSet, val : {0, 1, 2, 3}]},
+          act : {"errno"}]
+    [] s = "pairs" ->      \* C03: AND of two conditions on the SAME argument, every pair of operations and operands (0 and the
+                           \* largest value included: conditions that hold for every argument, or for none)
          [names : {<<>>},
-          conds : {<<Entry(0, <<c, d>>)>> : c \in [arg : {0}, op : OpSet, val : {1, 2}], d \in [arg : {0}, op : OpSet, val : {1, 2, 3}]}
+          conds : {<<Entry(0, <<c, d>>)>> : c \in [arg : {0}, op : OpSet, val : {0, 1, 2, 3}], d \in [arg : {0}, op : OpSet, val : {0, 1, 2, 3}]}
+                  \cup {<<Entry(0, <<c>>)>> : c \in [arg : {0, 1}, op : OpSet, val : {0, 3}]}
                   \cup {<<Entry(0, <<c, e, d>>)>> : c \in [arg : {0}, op : {"BitsSet", "BitsNotSet", "Equal"}, val : {1}], e \in [arg : {1}, op : {"Equal"}, val : {1}],
                                                       d \in [arg : {0}, op : {"BitsSet", "BitsNotSet", "NotEqual"}, val : {2}]},
           act : {"errno"}]
@@ -89,7 +95,7 @@ Defaults(s) ==
 Targets(s) ==   \* values of pol.x86
   \* FALSE: the policy is compiled for an architecture other than x86_64 (the replay rotates i386, arm, aarch64: the two 32-bit
   \* architectures compare the full 64 bits of an argument like the others)
-  CASE s \in {"groups", "groups2", "actions", "many", "manywide", "defects", "single", "boundary", "allops", "deep"} -> {TRUE, FALSE}
+  CASE s \in {"groups", "groups2", "actions", "many", "manywide", "defects", "single", "boundary", "allops", "deep", "mergeops"} -> {TRUE, FALSE}
     [] OTHER -> {TRUE}
 
 ---------------------------------------------------------------------------
@@ -124,7 +130,9 @@ Inject(p) ==
                e \in 1..Len(p.groups[g].conds), at \in 1..(Len(p.groups[g].names) + 1)}
        \cup UNION {
             {[p EXCEPT !.groups[g].conds[e].conds[c].arg = a] :
-               c \in 1..Len(p.groups[g].conds[e].conds), a \in {6, 7, BigArg}}
+               \* (an index is a 32-bit unsigned number in the code; TLC's integers are 32-bit signed, so the upper half is written
+               \* negative: -k stands for 2^32 - k.  2^29, 2^30, 2^31 + 1 ... are the values whose byte offset 8 * index wraps to 0..40)
+               c \in 1..Len(p.groups[g].conds[e].conds), a \in {6, 7, BigArg, 536870912, 536870917, 1073741824, 1073741826, -2147483647, -2147483646, -2, -1}}
             \cup {[p EXCEPT !.groups[g].conds[e].conds[c].op = o] :
                c \in 1..Len(p.groups[g].conds[e].conds), o \in BadOps}
             : e \in 1..Len(p.groups[g].conds)}
@@ -252,7 +260,7 @@ EventSeq(s) ==
          SetToSeq({Ev(ar, nr, NoArgs) : ar \in {"own", "other"}, nr \in 0..NrMax})
     [] s \in {"groups2", "chain"} ->
          SetToSeq({Ev(ar, nr, NoArgs) : ar \in {"own", "other"}, nr \in 0..NrMax})
-    [] s \in {"rich", "merge", "many", "manywide", "allops", "defects", "defects2", "deep", "pairs"} ->
+    [] s \in {"rich", "merge", "many", "manywide", "allops", "defects", "defects2", "deep", "pairs", "mergeops"} ->
          SetToSeq({Ev(ar, nr, a) : ar \in {"own", "other"},
                                    nr \in Sys \cup {NSys, X32Bit, X32Bit + 1}, a \in Args2})
     [] s \in {"long1", "long2", "longconds", "klong"} -> LongEvents(s)
